@@ -510,7 +510,7 @@ func (m *InterpModel) Call(mc *Machine, st *State, call ssa.CallInstruction, cal
 		if !m.KeepAsEvent(callee) {
 			return nil, false // inline
 		}
-	} else if !coreLeaf[fnName(callee)] && len(st.Frames) < mc.MaxDepth-1 && !mc.onStack(st, callee) {
+	} else if _, isCtor := tokenConstructors(m.p)[m.p.FuncKey(callee)]; !coreLeaf[fnName(callee)] && !isCtor && len(st.Frames) < mc.MaxDepth-1 && !mc.onStack(st, callee) {
 		return nil, false // a helper that is not one of the interpreter's core value functions: look inside it
 	}
 	if !ii.Effectful[callee] && callee != ii.Interpret && callee != ii.FuncCall {
@@ -660,6 +660,27 @@ func (m *InterpModel) Instr(mc *Machine, st *State, in ssa.Instruction, ops []AV
 			e.KV["facts"] = strings.Join(fs, ";")
 			m.Emit(st, e)
 		}
+	case *ssa.Slice:
+		// x[lo:hi] of a list: bookkeeping for the path-sensitive bounds proof (what the path knows about lo, hi, len(x))
+		if _, isSlice := x.X.Type().Underlying().(*types.Slice); isSlice && (x.Low != nil || x.High != nil) && len(ops) >= 1 && ops[0].K == KSym {
+			lo, hi := "", ""
+			if x.Low != nil {
+				lo = mc.resolve(st, mc.eval(st, st.Top(), x.Low)).String()
+			}
+			if x.High != nil {
+				hi = mc.resolve(st, mc.eval(st, st.Top(), x.High)).String()
+			}
+			e := m.ev(in, "slicebounds", []string{ops[0].S, lo, hi}, "")
+			var fs []string
+			for k, v := range st.Facts {
+				if strings.HasPrefix(k, "c:") {
+					fs = append(fs, k[2:]+"="+v.String())
+				}
+			}
+			sort.Strings(fs)
+			e.KV["facts"] = strings.Join(fs, ";")
+			m.Emit(st, e)
+		}
 	case *ssa.Next:
 		// outcome is decided at the following If; record the iteration source
 	case *ssa.Panic:
@@ -738,6 +759,18 @@ func (m *InterpModel) Branch(mc *Machine, st *State, in *ssa.If, cond AV, taken 
 		}
 		m.Emit(st, m.ev(in, "has", []string{strings.TrimPrefix(cond.S, "has:")}, fmt.Sprint(t)))
 		return
+	}
+	// the outcome of a type test made in a helper and handed back (array, ok := asArray(v)): the same event as the test
+	// made in place
+	if cond.K == KSym && strings.HasPrefix(cond.S, "ok:") && strings.HasSuffix(cond.S, ")") {
+		if i := strings.LastIndex(cond.S, ".("); i > 3 {
+			t := taken
+			if cond.Neg {
+				t = !t
+			}
+			m.Emit(st, m.ev(in, "typetest", []string{cond.S[3:i], cond.S[i+2 : len(cond.S)-1]}, fmt.Sprint(t)))
+			return
+		}
 	}
 	if ex, ok := in.Cond.(*ssa.Extract); ok && ex.Index == 1 {
 		if ta, ok := ex.Tuple.(*ssa.TypeAssert); ok {
